@@ -615,6 +615,33 @@ theorem setCurrentOk_current (s : JobList) (i : Nat) (j : Job) (hg : gets s.entr
       simp [JobList.currentJob, hg]
     · simp [hi, JobList.currentJob, hg]
 
+theorem jobsFinish1_gets (s : JobList) (i k : Nat) :
+    gets (jobsFinish1 s i).entries k =
+      if k = i then
+        (match gets s.entries i with
+         | none => none
+         | some j => if j.state.isAlive then some { j with changed := false } else none)
+      else gets s.entries k := by
+  unfold jobsFinish1
+  cases hg : gets s.entries i with
+  | none =>
+    simp only
+    by_cases hk : k = i
+    · subst hk; simp [hg]
+    · simp [hk]
+  | some j =>
+    simp only
+    cases ha : j.state.isAlive with
+    | true =>
+      simp only [if_true]
+      exact gets_set _ _ _ _ (gets_some_lt hg)
+    | false =>
+      simp only [Bool.false_eq_true, if_false]
+      rw [remove_gets]
+
+theorem digit_not_special (c : Char) (h : isDigitC c = true) : c ≠ '%' ∧ c ≠ '+' ∧ c ≠ '-' ∧ c ≠ '?' := by
+  refine ⟨?_, ?_, ?_, ?_⟩ <;> (intro e; subst e; revert h; decide)
+
 /-- an argument that starts with `%` is the first operand -/
 theorem parseArgs_percent (allowed : List Char) (cs : Str) (rest : List Str) :
     parseArgs allowed (('%' :: cs) :: rest) = some ([], ('%' :: cs) :: rest) := by
